@@ -311,3 +311,73 @@ def audit_check(case, obs):
                 if not acks and errs and errs[0] not in (b"USER_NOT_IN_CHANNEL", b"CHANNEL_NOT_FOUND"):
                     viol.append(("C05", f"unexpected answer {errs} to the membership probe of {ch}", t))
     return viol
+
+
+def acl_check(case, obs):
+    """C03 on the implementation: decisions must agree with the most recently REPORTED allow-list
+    (GET_CHAN_ACL without pagination), for join (JOIN / on-behalf JOIN) and publish (BROADCAST)."""
+    viol = []
+    reported = {}    # (channel, type) -> list of nid bytes
+    user = {}
+    def allowed(lst, nid):
+        if not lst:
+            return True
+        dom = nid.split(b"@", 1)[1] if b"@" in nid else nid
+        return nid in lst or dom in lst
+    for t, (op, o) in enumerate(zip(case["ops"], obs["ops"])):
+        recv = {int(k): v for k, v in o["conns"].items()}
+        for k, v in recv.items():
+            for f in v["frames"]:
+                if "undecodable" in f:
+                    continue
+                if fname(f) == "IDENTIFY_ACK" or (fname(f) == "AUTH_ACK" and sl.frame_get(f, "succeeded") is True):
+                    user[k] = fget(f, "nid")
+        if op["t"] != "send":
+            continue
+        k0 = op["k"]
+        me = user.get(k0)
+        for (kind, params, pl) in parse_sent(bytes.fromhex(op["bytes"])):
+            ch = params.get("channel")
+            try:
+                rid = int(params.get("id", b"0"))
+            except ValueError:
+                continue
+            myf = [f for f in recv.get(k0, {"frames": []})["frames"] if "undecodable" not in f and sl.frame_get(f, "id") == rid]
+            names = [fname(f) for f in myf]
+            errs = [fget(f, "reason") for f in myf if fname(f) == "ERROR"]
+            if kind == "SET_CHAN_ACL":
+                ty = params.get("type")
+                if "SET_CHAN_ACL_ACK" in names:
+                    reported.pop((ch, ty), None)
+                    # the named user NIDs must be present / absent in the next report: remembered as expectation
+                    reported[("expect", ch, ty)] = (params.get("action"), [n for n in params.get("nids", b"").split(b" ") if b"@" in n])
+            if kind == "GET_CHAN_ACL" and "CHAN_ACL" in names and "page" not in params:
+                ty = params.get("type")
+                lst = fget([f for f in myf if fname(f) == "CHAN_ACL"][0], "nids")
+                reported[(ch, ty)] = lst
+                exp = reported.pop(("expect", ch, ty), None)
+                if exp:
+                    action, nids = exp
+                    for n in nids:
+                        if action == b"add" and n not in lst:
+                            viol.append(("C03", f"acknowledged add of {n} to {ch}/{ty} but the reported list lacks it", t))
+                        if action == b"remove" and n in lst:
+                            viol.append(("C03", f"acknowledged remove of {n} from {ch}/{ty} but the reported list still has it", t))
+            if kind == "JOIN" and (ch, b"join") in reported and me:
+                who = params.get("on_behalf", me)
+                if "JOIN_ACK" in names and not allowed(reported[(ch, b"join")], who):
+                    viol.append(("C03", f"{who} joined {ch} although the reported join list {reported[(ch, b'join')]} does not permit it", t))
+                if errs[:1] == [b"NOT_ALLOWED"] and allowed(reported[(ch, b"join")], who):
+                    viol.append(("C03", f"{who} refused (NOT_ALLOWED) although the reported join list {reported[(ch, b'join')]} permits it", t))
+            if kind == "BROADCAST" and (ch, b"publish") in reported and me:
+                if "BROADCAST_ACK" in names and not allowed(reported[(ch, b"publish")], me):
+                    viol.append(("C03", f"{me} published to {ch} although the reported publish list does not permit it", t))
+                if errs[:1] == [b"NOT_ALLOWED"] and allowed(reported[(ch, b"publish")], me):
+                    viol.append(("C03", f"{me} refused (NOT_ALLOWED) although the reported publish list permits it", t))
+            if kind == "BROADCAST" and (ch, b"read") in reported and "BROADCAST_ACK" in names:
+                for k, v in recv.items():
+                    for f in v["frames"]:
+                        if "undecodable" not in f and fname(f) == "MESSAGE" and fget(f, "channel") == ch and k in user:
+                            if not allowed(reported[(ch, b"read")], user[k]):
+                                viol.append(("C03", f"{user[k]} received a MESSAGE of {ch} although the reported read list does not permit it", t))
+    return viol
